@@ -1,12 +1,520 @@
-//! C08: harness module (stub — not built yet)
-#![allow(dead_code, unused_imports, unused_variables)]
+//! C08: gate chains built with the real `des::net` builder API and messages sent through them.
+//!
+//! Script lines (objects are named, so scripts survive line deletion):
+//!   mod m<i>                                   create module `m<i>`
+//!   gate g<j> mod=m<i>                         single gate named `g<j>` on that module
+//!   gate g<j> mod=m<i> cl=c<k> pos=<p> size=<s>   member `p` of the gate cluster `c<k>` (size `s`)
+//!   connect g<a> g<b> ch=none|<ns>             `g<a>.connect(g<b>, channel)`; channel = latency <ns>,
+//!                                              bitrate 0 (never busy), no jitter
+//!   walk g<j>                                  observe kind / path_iter / next_gate / path_end / prev_hop
+//!   send s<i> gate=g<j> at=<ns> delay=<ns> from=start|msg
+//!                                              the owner of g<j> calls `send` (delay 0) or `send_in`
+//!                                              at time <at> from `at_sim_start` (at = 0) or `handle_message`
+//! Transcript: each executed line + ` -> answer`.
+//!   connect … -> ok|panic
+//!   walk g -> kind=<standalone|endpoint|transit> next=<g|none> end=<g|none> path=<g:ch,…|empty|none> prev=<g,…|empty|none>
+//!   send … -> n=<deliveries> [rx=<m> t=<ns> sender=<m> receiver=<m> last=<g|none>] | skipped-transit
 use crate::rng::Rng;
 use crate::util::{cases, guarded, hval};
+use des::net::gate::GateKind;
+use des::prelude::*;
+use std::collections::HashMap;
+use std::fmt::Write;
+use std::sync::{Arc, Mutex};
 
-pub fn gen(_seed: u64, _count: usize, _thorough: bool) -> String {
-    String::new()
+const TRIGGER: MessageKind = 7777;
+const DATA: MessageKind = 42;
+
+#[derive(Clone, Debug)]
+struct SendOp {
+    idx: u16,
+    gate_name: String,
+    gate_pos: usize,
+    at: u64,
+    delay: u64,
+    from_start: bool,
 }
 
-pub fn exec(_input: &str) -> String {
-    String::new()
+#[derive(Clone, Debug)]
+struct Delivery {
+    idx: u16,
+    rx_path: String,
+    t: u128,
+    sender: u16,
+    receiver: u16,
+    last: Option<(String, String, usize)>, // owner path, gate name, pos
+}
+
+#[derive(Default)]
+struct Shared {
+    deliveries: Vec<Delivery>,
+    ids: HashMap<u16, String>,
+    skipped: Vec<u16>,
+    disabled: Vec<u16>,
+}
+
+struct Node {
+    sends: Vec<SendOp>,
+    shared: Arc<Mutex<Shared>>,
+}
+
+impl Node {
+    fn do_send(&self, op: &SendOp) {
+        let Some(gate) = current().gate(&op.gate_name, op.gate_pos) else {
+            return;
+        };
+        if self.shared.lock().unwrap().disabled.contains(&op.idx) {
+            return;
+        }
+        if gate.kind() == GateKind::Transit {
+            // `Connection::new` asserts: would panic inside the module
+            self.shared.lock().unwrap().skipped.push(op.idx);
+            return;
+        }
+        let msg = Message::default().kind(DATA).id(op.idx);
+        if op.delay == 0 {
+            send(msg, gate);
+        } else {
+            send_in(msg, gate, Duration::from_nanos(op.delay));
+        }
+    }
+}
+
+impl Module for Node {
+    fn at_sim_start(&mut self, _stage: usize) {
+        self.shared
+            .lock()
+            .unwrap()
+            .ids
+            .insert(current().id().0, current().path().as_str().to_string());
+        for op in self.sends.clone() {
+            if op.from_start && op.at == 0 {
+                self.do_send(&op);
+            } else {
+                schedule_in(
+                    Message::default().kind(TRIGGER).id(op.idx),
+                    Duration::from_nanos(op.at),
+                );
+            }
+        }
+    }
+
+    fn handle_message(&mut self, msg: Message) {
+        let h = msg.header();
+        if h.kind == TRIGGER {
+            if let Some(op) = self.sends.iter().find(|o| o.idx == h.id).cloned() {
+                self.do_send(&op);
+            }
+            return;
+        }
+        let last = h.last_gate.as_ref().map(|g| {
+            (
+                g.owner().path().as_str().to_string(),
+                g.name().to_string(),
+                g.pos(),
+            )
+        });
+        let d = Delivery {
+            idx: h.id,
+            rx_path: current().path().as_str().to_string(),
+            t: SimTime::now().as_nanos(),
+            sender: h.sender_module_id.0,
+            receiver: h.receiver_module_id.0,
+            last,
+        };
+        self.shared.lock().unwrap().deliveries.push(d);
+    }
+}
+
+fn channel(ns: u64) -> ChannelRef {
+    Channel::new(ChannelMetrics {
+        bitrate: 0,
+        latency: Duration::from_nanos(ns),
+        jitter: Duration::ZERO,
+        drop_behaviour: ChannelDropBehaviour::Queue(None),
+    })
+}
+
+struct GateInfo {
+    owner: String,
+    name: String,
+    pos: usize,
+}
+
+enum Line {
+    Plain(String),
+    Send(String, u16),
+}
+
+fn kind_str(k: GateKind) -> &'static str {
+    match k {
+        GateKind::Standalone => "standalone",
+        GateKind::Endpoint => "endpoint",
+        GateKind::Transit => "transit",
+    }
+}
+
+fn run_case(header: &str, body: &[String], out: &mut String) {
+    writeln!(out, "{header}").unwrap();
+    if std::env::var("HX_PANIC_MSG").is_err() {
+        // des installs its own panic hook when a simulation is built; expected panics stay quiet
+        std::panic::set_hook(Box::new(|_| {}));
+    }
+    // pass 1: which sends belong to which module
+    let mut gate_decl: HashMap<String, GateInfo> = HashMap::new();
+    let mut mods: Vec<String> = Vec::new();
+    for line in body {
+        let tok: Vec<&str> = line.split_whitespace().collect();
+        match tok.as_slice() {
+            ["mod", m] => {
+                if !mods.contains(&m.to_string()) {
+                    mods.push(m.to_string())
+                }
+            }
+            ["gate", g, rest @ ..] => {
+                let l = rest.join(" ");
+                let Some(m) = hval(&l, "mod") else { continue };
+                if !mods.contains(&m) || gate_decl.contains_key(*g) {
+                    continue;
+                }
+                let (name, pos) = match hval(&l, "cl") {
+                    Some(c) => (c, hval(&l, "pos").and_then(|v| v.parse().ok()).unwrap_or(0)),
+                    None => (g.to_string(), 0usize),
+                };
+                gate_decl.insert(g.to_string(), GateInfo { owner: m, name, pos });
+            }
+            _ => {}
+        }
+    }
+    let mut sends_of: HashMap<String, Vec<SendOp>> = HashMap::new();
+    let mut send_idx: u16 = 0;
+    let mut send_ids: HashMap<String, u16> = HashMap::new();
+    for line in body {
+        let tok: Vec<&str> = line.split_whitespace().collect();
+        if let ["send", s, rest @ ..] = tok.as_slice() {
+            let l = rest.join(" ");
+            let Some(g) = hval(&l, "gate") else { continue };
+            let Some(info) = gate_decl.get(&g) else { continue };
+            if send_ids.contains_key(*s) {
+                continue;
+            }
+            let op = SendOp {
+                idx: send_idx,
+                gate_name: info.name.clone(),
+                gate_pos: info.pos,
+                at: hval(&l, "at").and_then(|v| v.parse().ok()).unwrap_or(0),
+                delay: hval(&l, "delay").and_then(|v| v.parse().ok()).unwrap_or(0),
+                from_start: hval(&l, "from").map(|v| v == "start").unwrap_or(false),
+            };
+            send_ids.insert(s.to_string(), send_idx);
+            send_idx += 1;
+            sends_of.entry(info.owner.clone()).or_default().push(op);
+        }
+    }
+
+    // pass 2: build
+    let shared = Arc::new(Mutex::new(Shared::default()));
+    let mut sim = Sim::new(());
+    let mut created_mods: Vec<String> = Vec::new();
+    let mut gates: HashMap<String, GateRef> = HashMap::new();
+    let mut rev: HashMap<(String, String, usize), String> = HashMap::new();
+    let mut lines: Vec<Line> = Vec::new();
+    // A `connect` that panics on its degree assertion does so while holding both gates' mutexes, which
+    // poisons them: every later call on those gates panics with a lock error.  That is an artefact of
+    // catching the panic (a real builder would have aborted), so lines touching such gates are dropped.
+    let mut poisoned: Vec<String> = Vec::new();
+    let gname = |rev: &HashMap<(String, String, usize), String>, g: &GateRef| -> String {
+        rev.get(&(
+            g.owner().path().as_str().to_string(),
+            g.name().to_string(),
+            g.pos(),
+        ))
+        .cloned()
+        .unwrap_or_else(|| "?".to_string())
+    };
+    for line in body {
+        let tok: Vec<&str> = line.split_whitespace().collect();
+        match tok.as_slice() {
+            ["mod", m] => {
+                if created_mods.contains(&m.to_string()) {
+                    continue;
+                }
+                let node = Node {
+                    sends: sends_of.get(*m).cloned().unwrap_or_default(),
+                    shared: shared.clone(),
+                };
+                if guarded(|| sim.node(*m, node)).is_ok() {
+                    created_mods.push(m.to_string());
+                    lines.push(Line::Plain(format!("{line} -> ok")));
+                }
+            }
+            ["gate", g, rest @ ..] => {
+                let l = rest.join(" ");
+                let Some(info) = gate_decl.get(*g) else { continue };
+                if gates.contains_key(*g) || !created_mods.contains(&info.owner) {
+                    continue;
+                }
+                let r = match hval(&l, "cl") {
+                    Some(c) => {
+                        let size: usize = hval(&l, "size").and_then(|v| v.parse().ok()).unwrap_or(1);
+                        let pos = info.pos;
+                        guarded(|| sim.gates(info.owner.as_str(), &c, size)).ok().and_then(|v| v.get(pos).cloned())
+                    }
+                    None => guarded(|| sim.gate(info.owner.as_str(), g)).ok(),
+                };
+                if let Some(gr) = r {
+                    rev.insert((info.owner.clone(), gr.name().to_string(), gr.pos()), g.to_string());
+                    gates.insert(g.to_string(), gr);
+                    lines.push(Line::Plain(format!("{line} -> ok")));
+                }
+            }
+            ["connect", a, b, ch] => {
+                let (Some(ga), Some(gb)) = (gates.get(*a).cloned(), gates.get(*b).cloned()) else { continue };
+                let chv = ch.strip_prefix("ch=").unwrap_or("none");
+                let chan = chv.parse::<u64>().ok().map(channel);
+                if poisoned.contains(&a.to_string()) || poisoned.contains(&b.to_string()) {
+                    continue;
+                }
+                let r = guarded(move || ga.connect(gb, chan));
+                if r.is_err() && a != b {
+                    poisoned.push(a.to_string());
+                    poisoned.push(b.to_string());
+                }
+                lines.push(Line::Plain(format!("{line} -> {}", if r.is_ok() { "ok" } else { "panic" })));
+            }
+            ["walk", g] => {
+                let Some(gr) = gates.get(*g).cloned() else { continue };
+                let r = guarded(|| {
+                    let kind = gr.kind();
+                    let next = gr.next_gate().map(|x| gname(&rev, &x)).unwrap_or_else(|| "none".into());
+                    let end = gr.path_end().map(|x| gname(&rev, &x)).unwrap_or_else(|| "none".into());
+                    let (path, prev) = match gr.path_iter() {
+                        None => ("none".to_string(), "none".to_string()),
+                        Some(it) => {
+                            let cons: Vec<_> = it.take(64).collect();
+                            if cons.is_empty() {
+                                ("empty".to_string(), "empty".to_string())
+                            } else {
+                                let p: Vec<String> = cons
+                                    .iter()
+                                    .map(|c| {
+                                        let ch = match c.channel() {
+                                            Some(ch) => ch.metrics().latency.as_nanos().to_string(),
+                                            None => "none".to_string(),
+                                        };
+                                        format!("{}:{}", gname(&rev, &c.endpoint), ch)
+                                    })
+                                    .collect();
+                                let q: Vec<String> = cons
+                                    .iter()
+                                    .map(|c| c.prev_hop().map(|x| gname(&rev, &x)).unwrap_or_else(|| "none".into()))
+                                    .collect();
+                                (p.join(","), q.join(","))
+                            }
+                        }
+                    };
+                    format!("kind={} next={next} end={end} path={path} prev={prev}", kind_str(kind))
+                });
+                if r.is_err() && !poisoned.is_empty() {
+                    continue;
+                }
+                lines.push(Line::Plain(format!("{line} -> {}", r.unwrap_or_else(|_| "panic".into()))));
+            }
+            ["send", s, rest @ ..] => {
+                if let Some(idx) = send_ids.get(*s) {
+                    if !poisoned.is_empty() {
+                        let g = hval(&rest.join(" "), "gate").and_then(|g| gates.get(&g).cloned());
+                        let walkable = g.map(|g| guarded(|| g.path_iter().map(|it| it.take(64).count())).is_ok()).unwrap_or(false);
+                        if !walkable {
+                            shared.lock().unwrap().disabled.push(*idx);
+                            continue;
+                        }
+                    }
+                    // only the first line that introduced this name counts
+                    if !lines.iter().any(|l| matches!(l, Line::Send(_, i) if i == idx)) {
+                        lines.push(Line::Send(line.clone(), *idx));
+                    }
+                }
+            }
+            _ => {}
+        }
+    }
+
+    // run
+    let rt = Builder::seeded(1).quiet().build(sim.freeze());
+    let res = guarded(move || rt.run().map(|_| ()).map_err(|e| format!("{e}")));
+    let run_note = match res {
+        Ok(Ok(())) => "",
+        Ok(Err(_)) => " run-error",
+        Err(_) => " run-panic",
+    };
+    let sh = shared.lock().unwrap();
+    for l in lines {
+        match l {
+            Line::Plain(s) => writeln!(out, "{s}").unwrap(),
+            Line::Send(s, idx) => {
+                if sh.skipped.contains(&idx) {
+                    writeln!(out, "{s} -> skipped-transit").unwrap();
+                    continue;
+                }
+                let ds: Vec<&Delivery> = sh.deliveries.iter().filter(|d| d.idx == idx).collect();
+                if ds.is_empty() {
+                    writeln!(out, "{s} -> n=0").unwrap();
+                } else {
+                    let d = ds[0];
+                    let name = |id: u16| sh.ids.get(&id).cloned().unwrap_or_else(|| format!("#{id}"));
+                    let last = match &d.last {
+                        Some(k) => rev.get(k).cloned().unwrap_or_else(|| "?".into()),
+                        None => "none".into(),
+                    };
+                    writeln!(
+                        out,
+                        "{s} -> n={} rx={} t={} sender={} receiver={} last={}",
+                        ds.len(),
+                        d.rx_path,
+                        d.t,
+                        name(d.sender),
+                        name(d.receiver),
+                        last
+                    )
+                    .unwrap();
+                }
+            }
+        }
+    }
+    writeln!(out, "end{run_note}").unwrap();
+}
+
+pub fn exec(input: &str) -> String {
+    let mut out = String::new();
+    for (header, body) in cases(input) {
+        run_case(&header, &body, &mut out);
+    }
+    out
+}
+
+const DELAYS: [u64; 6] = [1, 5, 1_000, 30_000, 1_000_000, 2_500_000_000];
+
+pub fn gen(seed: u64, count: usize, thorough: bool) -> String {
+    let mut r = Rng::new(seed);
+    let mut out = String::new();
+    for k in 0..count {
+        let nmods = r.range(1, 6) as usize;
+        let hops = if thorough { r.range(1, 12) } else if r.chance(1, 3) { r.range(1, 4) } else { r.range(1, 12) } as usize;
+        let extra = r.below(5) as usize;
+        let ngates = hops + 1 + extra;
+        writeln!(out, "case {k} hops={hops}").unwrap();
+        for m in 0..nmods {
+            writeln!(out, "mod m{m}").unwrap();
+        }
+        // gates; some grouped into clusters on one module
+        let mut g = 0;
+        let mut cl = 0;
+        while g < ngates {
+            let m = r.below(nmods as u64);
+            if r.chance(1, 4) && g + 1 < ngates {
+                let size = (r.range(2, 3) as usize).min(ngates - g);
+                for p in 0..size {
+                    writeln!(out, "gate g{} mod=m{m} cl=c{cl} pos={p} size={size}", g + p).unwrap();
+                }
+                cl += 1;
+                g += size;
+            } else {
+                writeln!(out, "gate g{g} mod=m{m}").unwrap();
+                g += 1;
+            }
+        }
+        // chains: a random permutation of the gates, cut into the main chain (+ maybe a second one)
+        let mut perm: Vec<usize> = (0..ngates).collect();
+        for i in (1..ngates).rev() {
+            let j = r.below(i as u64 + 1) as usize;
+            perm.swap(i, j);
+        }
+        let mut chains: Vec<Vec<usize>> = vec![perm[..hops + 1].to_vec()];
+        if extra >= 2 && r.chance(2, 3) {
+            let len = r.range(2, extra as u64) as usize;
+            chains.push(perm[hops + 1..hops + 1 + len].to_vec());
+        }
+        let mut links: Vec<(usize, usize, Option<u64>)> = Vec::new();
+        for c in &chains {
+            for w in c.windows(2) {
+                let ch = if r.chance(1, 2) { Some(*r.pick(&DELAYS)) } else { None };
+                if r.chance(1, 2) {
+                    links.push((w[0], w[1], ch));
+                } else {
+                    links.push((w[1], w[0], ch));
+                }
+            }
+        }
+        for i in (1..links.len()).rev() {
+            let j = r.below(i as u64 + 1) as usize;
+            links.swap(i, j);
+        }
+        let chs = |c: Option<u64>| c.map(|v| v.to_string()).unwrap_or_else(|| "none".into());
+        let mut done: Vec<(usize, usize)> = Vec::new();
+        for (a, b, ch) in &links {
+            writeln!(out, "connect g{a} g{b} ch={}", chs(*ch)).unwrap();
+            done.push((*a, *b));
+            // noise: repeated / mirrored connect, self connect, connect onto arbitrary gates
+            match r.below(12) {
+                0 => {
+                    let (x, y) = *r.pick(&done);
+                    let ch2 = if r.chance(1, 2) { Some(*r.pick(&DELAYS)) } else { None };
+                    if r.chance(1, 2) {
+                        writeln!(out, "connect g{x} g{y} ch={}", chs(ch2)).unwrap();
+                    } else {
+                        writeln!(out, "connect g{y} g{x} ch={}", chs(ch2)).unwrap();
+                    }
+                }
+                1 => {
+                    let x = r.below(ngates as u64);
+                    writeln!(out, "connect g{x} g{x} ch=none").unwrap();
+                }
+                2 if r.chance(1, 3) => {
+                    // arbitrary pair: may panic (full), may legitimately join or close something
+                    let x = r.below(ngates as u64);
+                    let y = r.below(ngates as u64);
+                    writeln!(out, "connect g{x} g{y} ch={}", chs(Some(*r.pick(&DELAYS)))).unwrap();
+                }
+                3 | 4 => {
+                    writeln!(out, "walk g{}", r.below(ngates as u64)).unwrap();
+                }
+                _ => {}
+            }
+        }
+        if r.chance(1, 12) {
+            // close the main chain into a ring
+            let c = &chains[0];
+            writeln!(out, "connect g{} g{} ch=none", c[c.len() - 1], c[0]).unwrap();
+        }
+        for g in 0..ngates {
+            writeln!(out, "walk g{g}").unwrap();
+        }
+        // sends: both ends of every chain, some standalone / arbitrary gates
+        let mut s = 0;
+        let mut targets: Vec<usize> = Vec::new();
+        for c in &chains {
+            targets.push(c[0]);
+            targets.push(c[c.len() - 1]);
+        }
+        for _ in 0..r.below(3) {
+            targets.push(r.below(ngates as u64) as usize);
+        }
+        for g in targets {
+            let reps = if r.chance(1, 4) { 2 } else { 1 };
+            for _ in 0..reps {
+                let at = match r.below(4) {
+                    0 | 1 => 0,
+                    2 => r.range(1, 2000),
+                    _ => *r.pick(&DELAYS),
+                };
+                let delay = if r.chance(1, 2) { 0 } else { *r.pick(&DELAYS) + r.below(3) };
+                let from = if at == 0 && r.chance(1, 2) { "start" } else { "msg" };
+                writeln!(out, "send s{s} gate=g{g} at={at} delay={delay} from={from}").unwrap();
+                s += 1;
+            }
+        }
+        writeln!(out, "end").unwrap();
+    }
+    out
 }
